@@ -609,6 +609,11 @@ def r16_6(F, R):
                 fp = field_path(rp) if rp is not None else None
                 if fp and fp[-1] == "top":
                     return True      # `let old = mem::replace(&mut self.top, popped)`
+        if tb["k"] == "call":
+            c = tb.get("callee") or {}
+            for hn, (g, flds) in _helpers_storing(F, fn).items():
+                if g.id in (c.get("id"), c.get("rid")) and "top" in flds:
+                    return True      # `self.replace_top(popped)`
         return False
     skip = find_path(fn, some_targets, lambda b: is_return(fn, b), blocked={b for b in range(len(fn.blocks)) if stores_top_whole(b)})
     if skip:
@@ -680,13 +685,58 @@ def r16_7(F, R):
                     "the operation read back has a different num_223_bytes" % [c for c in ch if c[0] != "place"][:2], loc)
 
 
+def _helpers_storing(F, upd, fields=("top", "tail")):
+    """{helper short name: set of tracked fields it assigns} for same-file functions that Values::update calls (an extracted `replace_top`)"""
+    from ..cfg import Defs, field_path
+    from .common import same_file_callees
+    out = {}
+    for g in same_file_callees(F, upd):
+        gd = Defs(g)
+        st_fields = set()
+        for b in g.blocks:
+            for st in b["s"]:
+                fp = field_path(st["lhs"]) if st["k"] == "=" else None
+                if fp and fp[-1] in fields and st["lhs"]["l"] == 1:
+                    st_fields.add(fp[-1])
+            tb = b["t"]
+            if tb["k"] == "call" and strip_generics(callee_name(tb) or "") in ("core::mem::replace", "core::mem::swap", "core::mem::take") and tb.get("args"):
+                for a in tb["args"][:2]:
+                    rp = gd.resolve_place(a)
+                    fp = field_path(rp) if rp is not None else None
+                    if fp and fp[-1] in fields and rp["l"] == 1:
+                        st_fields.add(fp[-1])
+        # only fields the helper assigns on *every* path to its return count (a helper that restores `if changed` is the defect, not the idiom)
+        from ..cfg import find_path, is_return
+        always = set()
+        for f in st_fields:
+            blocks = set()
+            for bi, b in enumerate(g.blocks):
+                for st in b["s"]:
+                    fp = field_path(st["lhs"]) if st["k"] == "=" else None
+                    if fp and fp[-1] == f and st["lhs"]["l"] == 1:
+                        blocks.add(bi)
+                tb = b["t"]
+                if tb["k"] == "call" and strip_generics(callee_name(tb) or "") in ("core::mem::replace", "core::mem::swap", "core::mem::take") and tb.get("args"):
+                    for a in tb["args"][:2]:
+                        rp = gd.resolve_place(a)
+                        fp = field_path(rp) if rp is not None else None
+                        if fp and fp[-1] == f and rp["l"] == 1:
+                            blocks.add(bi)
+            if find_path(g, [0], lambda b: is_return(g, b), blocked=blocks) is None:
+                always.add(f)
+        if always:
+            out[strip_generics(g.name).split("::")[-1]] = (g, always)
+    return out
+
+
 def r16_8(F, R):
     R.rule("R16.8", "a page starts from scratch: on every path of Values::update for Op::BeginPage the push/pop stack (`tail`) is replaced and the "
                     "registers (`top`) are reset — frames left over from an unbalanced previous page must not survive, or a later pop restores the "
                     "previous page's w/x/y/z and VarRemover emits wrong distances")
     upd = _one(F, "dvi::Values::update")
     ops = {v[0]: v[2] for v in F.enums[OP]}
-    e = EDT(F, upd, type_assume={OP: ops["BeginPage"]}, interesting_fields=["tail", "top"])
+    helpers = _helpers_storing(F, upd)
+    e = EDT(F, upd, type_assume={OP: ops["BeginPage"]}, interesting_fields=["tail", "top"], interesting_calls=list(helpers))
     n = 0
     bad = 0
     for p in e.run():
@@ -694,6 +744,9 @@ def r16_8(F, R):
             continue
         n += 1
         stored = {ev[1].split(".")[-1] for ev in p.events if ev[0] == "store"}
+        for ev in p.events:
+            if ev[0] == "call" and ev[1] in helpers:
+                stored |= helpers[ev[1]][1]      # an extracted helper that assigns the field
         if not {"tail", "top"} <= stored:
             bad += 1
     loc = "%s:%d" % (upd.file, upd.line)
